@@ -24,7 +24,33 @@ def _oblig(name, formula):
     _state["oblig"].append((name, list(cx.cur().pc), formula))
 
 
+def report_diag(rep):
+    """lists the recorded diagnostics under `uncovered` and states the count in the evidence"""
+    n = 0
+    for case, conds in sorted(DIAG.items()):
+        for c in sorted(conds):
+            n += 1
+            rep.uncover(f"E3 diagnostic: {case}: the rule broadcasts two sizes under a condition NumPy did not demand of the primal call ({c}): it raises for other sizes, and may combine "
+                        "misaligned axes where the sizes happen to coincide")
+    rep.extra["e3_rule_internal_broadcasts_not_implied_by_the_primal_call"] = n
+
+
+def _enter_primal():
+    _state["oblig"] = []
+    sx.IN_RULE[0] = None
+
+
+def _enter_rule():
+    """From here on the RULE runs.  A broadcast between two symbolic sizes inside the rule that is not implied by what NumPy demanded of the primal call means:
+    for some accepted sizes the rule raises (allowed by the properties), and for sizes that happen to coincide it may combine misaligned axes silently.  The
+    condition is still assumed (the rule 'raises' otherwise) but recorded as a diagnostic goal `diag:rule-internal-broadcast`: unproved ones are listed under
+    uncovered, never reported as violations."""
+    _state["oblig"] = []
+    sx.IN_RULE[0] = lambda cond: _state["oblig"].append(("diag:rule-internal-broadcast", list(cx.cur().pc), cond))
+
+
 _cache = {}
+DIAG = {}      # case -> rule-internal broadcast conditions that the primal's acceptance does not imply (diagnostic)
 
 
 def load():
@@ -67,7 +93,7 @@ def run_adjoint_helpers(rep, tier):
                 case = f"{hname}[{label}]|arg{a}|vjp"
 
                 def harness(L, name=name, spec=spec, kwargs=kwargs, side=side, a=a, hname=hname):
-                    _state["oblig"] = []
+                    _enter_primal()
                     A_, B_ = _sym_args(L, spec, {})
                     ans = getattr(anp, name)(A_, B_, **kwargs)
                     G = sx.SArr(sx.shape_of(ans), sx.kind_of(ans))
@@ -77,7 +103,7 @@ def run_adjoint_helpers(rep, tier):
                     else:
                         hargs = (other, G, kwargs.get("axes", 2), len(sx.shape_of(A_)), len(sx.shape_of(B_)))
                     adj = rv.helpers[hname](*hargs)
-                    _state["oblig"] = []
+                    _enter_rule()      # acceptance conditions of the PRIMAL call are preconditions; inside the rule, broadcasts are additionally recorded (diagnostic)
                     mk = rv.vjps.get((hname, a))
                     if mk is None:
                         return None
@@ -215,7 +241,7 @@ def run_scipy_special(rep, tier):
             case = f"{label}|arg{a}|{mode}"
 
             def harness(L, name=name, spec=spec, kwargs=kwargs, a=a, mode=mode):
-                _state["oblig"] = []
+                _enter_primal()
                 syms = {}
                 args = _sym_args(L, spec, syms)
                 kw = {k: (_sym_args(L, [("A", v[1], "real")], syms)[0] if isinstance(v, tuple) and v and v[0] == "B" else v) for k, v in kwargs.items()}
@@ -223,7 +249,7 @@ def run_scipy_special(rep, tier):
                 if prim is None:
                     return None
                 ans = prim(*args, **kw)
-                _state["oblig"] = []
+                _enter_rule()      # acceptance conditions of the PRIMAL call are preconditions; inside the rule, broadcasts are additionally recorded (diagnostic)
                 tgt = args[a]
                 if mode == "vjp":
                     res = rv.vjps[(name, a)](ans, *args, **kw)(sx.SArr(sx.shape_of(ans), "real"))
@@ -359,10 +385,10 @@ def run_elementwise_modules(rep, tier):
                 ncases += 1
 
                 def harness(L, name=name, shapes=shapes, a=a, mk=mk):
-                    _state["oblig"] = []
+                    _enter_primal()
                     args = _sym_args(L, [A(*sh) for sh in shapes], {})
                     ans = rv.helpers[name](*args)
-                    _state["oblig"] = []
+                    _enter_rule()      # acceptance conditions of the PRIMAL call are preconditions; inside the rule, broadcasts are additionally recorded (diagnostic)
                     res = mk(ans, *args)(sx.SArr(sx.shape_of(ans), "real"))
                     if not isinstance(res, sx.SArr):
                         return None
@@ -490,7 +516,7 @@ def run_fft(rep, tier):
         case = f"{label}|arg0|vjp"
 
         def harness(L, name=name, spec=spec, kwargs=kwargs):
-            _state["oblig"] = []
+            _enter_primal()
             syms = {}
             args = []
             for it in spec:
@@ -514,7 +540,7 @@ def run_fft(rep, tier):
                 for d in sx.shape_of(x):
                     cx.assume(d >= 1)       # NumPy's fft rejects empty axes
             ans = getattr(ff, name)(*args, **kwargs)
-            _state["oblig"] = []
+            _enter_rule()      # acceptance conditions of the PRIMAL call are preconditions; inside the rule, broadcasts are additionally recorded (diagnostic)
             mk = rv.vjps.get((name, 0))
             if mk is None:
                 return None
@@ -636,10 +662,10 @@ def run_linalg(rep, tier):
                 case = f"{label}|arg{a}|{mode}"
 
                 def harness(L, name=name, spec=spec, kwargs=kwargs, a=a, mode=mode):
-                    _state["oblig"] = []
+                    _enter_primal()
                     args = _sym_args(L, spec, {})
                     ans = getattr(la, name)(*args, **kwargs)
-                    _state["oblig"] = []
+                    _enter_rule()      # acceptance conditions of the PRIMAL call are preconditions; inside the rule, broadcasts are additionally recorded (diagnostic)
                     tgt = args[a]
                     mkcot = lambda v: tuple(mkcot(u) for u in v) if isinstance(v, tuple) else sx.SArr(sx.shape_of(v), sx.kind_of(v))
                     if mode == "vjp":
@@ -705,10 +731,17 @@ def _check_leaf(rep, tier, name, r, res, target_shape, target_kind, case, replay
     res_shape, res_kind = res
     goals = [("shape", sx.same_dims(res_shape, target_shape)), ("kind", z3.BoolVal(res_kind == target_kind))]
     for nm, pc, f in r.value[1]:
+        if nm.startswith("diag:"):
+            from vlib.smt import prove as _prove
+            if _prove(pc, f)[0] != "proved":
+                DIAG.setdefault("|".join(case.split("|")[:4]), set()).add(str(z3.simplify(f))[:80])
+            continue
         goals.append((nm, f))
         r_pc = pc
     for cl, g in goals:
         pc = r.pc
+        if cl.startswith("diag:"):
+            continue
         if rep.is_known(f"E3:{name.split(':')[0]}:{cl}", case):
             # a recorded finding: decided without registering an obligation (reported as KNOWN-FINDING if it still fails, silently gone if it was repaired)
             from vlib.smt import prove
@@ -750,10 +783,13 @@ def run(rep, tier):
                             case = f"{name}|r{rx}{ry}|{kx[0]}{ky[0]}|{'s%d' % scalar if scalar is not None else 'aa'}|arg{a}|{mode}"
 
                             def harness(L, name=name, rx=rx, ry=ry, kx=kx, ky=ky, scalar=scalar, a=a, mode=mode):
-                                _state["oblig"] = []
+                                _enter_primal()
                                 x = 1.5 if scalar == 0 else sx.SArr(sym_shape(L, "x", rx), kx)
                                 y = 2.5 if scalar == 1 else sx.SArr(sym_shape(L, "y", ry), ky)
                                 ans = sx.SArr(sx.bshape(sx.shape_of(x), sx.shape_of(y)), sx.promote("real", sx.kind_of(x), sx.kind_of(y)))
+                                _o = _state["oblig"]
+                                _enter_rule()
+                                _state["oblig"].extend(_o)
                                 tgt = (x, y)[a]
                                 if mode == "vjp":
                                     mk = rv.vjps.get((name, a))
@@ -798,7 +834,7 @@ def run(rep, tier):
     # ---- reductions ---------------------------------------------------------------------------------------------------------
     for name in REDUCE:
         for rx in range(R + 1):
-            axes = [None] + list(range(-rx, rx)) + ([(0, 1), (1, 0), (-1, 0)] if rx >= 2 else []) + ([(0, 2), (2, 0, 1)] if rx >= 3 else [])
+            axes = [None] + list(range(-rx, rx)) + ([(0, 1), (1, 0), (-1, 0)] if rx >= 2 else []) + ([(-2, -1)] if rx >= 2 else []) + ([(0, 2), (2, 0, 1), (-2, -1), (-1, -3), (1, -1)] if rx >= 3 else [])
             for axis in axes:
                 if name == "prod" and isinstance(axis, tuple):
                     continue
@@ -810,7 +846,7 @@ def run(rep, tier):
                             case = f"{name}|r{rx}|axis={axis}|keepdims={kd}|{kx[0]}|{mode}"
 
                             def harness(L, name=name, rx=rx, axis=axis, kd=kd, kx=kx, mode=mode):
-                                _state["oblig"] = []
+                                _enter_primal()
                                 x = sx.SArr(sym_shape(L, "x", rx), kx)
                                 if L.model is None and name in ("max", "min", "amax", "amin", "mean", "var", "std"):
                                     for d in x.shape:
@@ -818,6 +854,9 @@ def run(rep, tier):
                                 ans = getattr(anp, name)(x, axis=axis, keepdims=kd)
                                 if name in ("var", "std", "max", "min", "amax", "amin") and kx == "complex":
                                     ans = sx.SArr(ans.shape, "real")
+                                _o = _state["oblig"]
+                                _enter_rule()
+                                _state["oblig"].extend(_o)
                                 if mode == "vjp":
                                     mk = rv.vjps.get((name, 0))
                                     if mk is None:
@@ -1027,10 +1066,10 @@ def run_struct(rep, tier):
                 case = f"{label}|arg{a}|{mode}"
 
                 def harness(L, name=name, spec=spec, kwargs=kwargs, a=a, mode=mode):
-                    _state["oblig"] = []
+                    _enter_primal()
                     args = _sym_args(L, spec, {})
                     ans = getattr(anp, name)(*args, **kwargs)
-                    _state["oblig"] = []   # acceptance conditions of the PRIMAL call are preconditions, not obligations
+                    _enter_rule()      # acceptance conditions of the PRIMAL call are preconditions; inside the rule, broadcasts are additionally recorded (diagnostic)
                     tgt = args[a]
                     if mode == "vjp":
                         if (name, a) in rv.vjps:
